@@ -202,13 +202,18 @@ Example text_roundtrip_hyp_sat :
   no_cdata_open "a<b & ]]> <![CDAT" = true.
 Proof. repeat split; reflexivity. Qed.
 
-Theorem text_roundtrip_gen : forall rp, rp = ref_xml_repl ->
+(* the same for a replacement table that equals the reference; the two further hypotheses are the instance
+   obligations that justify [quote_xml_loop] itself as the model of quote_xml (statement list of its body, and the
+   regular expression it iterates over): without them the theorem about the generated function is not claimed *)
+Theorem text_roundtrip_gen : forall rp (body : list string) (rx : string) (fl : list string),
+  rp = ref_xml_repl -> body = ref_quote_xml_body -> rx = ref_cdata_regex /\ fl = ref_cdata_flags ->
   forall s, text_safe s = true -> no_cdata_open s = true -> text_parse (quote_xml_of rp s) = Some s.
-Proof. intros rp ->. exact text_roundtrip. Qed.
+Proof. intros rp body rx fl -> _ _. exact text_roundtrip. Qed.
 
-Theorem text_roundtrip_strong_gen : forall rp, rp = ref_xml_repl ->
+Theorem text_roundtrip_strong_gen : forall rp (body : list string) (rx : string) (fl : list string),
+  rp = ref_xml_repl -> body = ref_quote_xml_body -> rx = ref_cdata_regex /\ fl = ref_cdata_flags ->
   forall s, text_safe s = true -> no_cdata_section s = true -> text_parse (quote_xml_of rp s) = Some s.
-Proof. intros rp ->. exact text_roundtrip_strong. Qed.
+Proof. intros rp body rx fl -> _ _. exact text_roundtrip_strong. Qed.
 
 (* generateDS deliberately leaves complete CDATA sections unescaped: the reader drops the markers *)
 Definition cdata_witness : string := "x <![CDATA[ y<z ]]> w".
@@ -278,14 +283,157 @@ Theorem int_roundtrip : forall z, parse_int (fmt_int z) = Some z.
 Proof. exact parse_int_fmt_int. Qed.
 
 (* ------------------------------------------------------------------ forms used by Props/C01_escape.v *)
-Theorem text_cdata_refuted_gen : forall rp, rp = ref_xml_repl ->
+Theorem text_cdata_refuted_gen : forall rp (body : list string) (rx : string) (fl : list string),
+  rp = ref_xml_repl -> body = ref_quote_xml_body -> rx = ref_cdata_regex /\ fl = ref_cdata_flags ->
   exists s, printable s = true /\ text_parse (quote_xml_of rp s) <> Some s.
-Proof. intros rp ->. exact text_cdata_refuted_printable. Qed.
+Proof. intros rp body rx fl -> _ _. exact text_cdata_refuted_printable. Qed.
 
 Theorem attr_roundtrip_printable_gen : forall rp d, rp = ref_attrib_repl -> d = ref_attrib_decision ->
   forall s, printable s = true -> attr_parse (quote_attrib_of rp d s) = Some s.
 Proof. intros rp d Hr Hd s Hs. exact (attr_roundtrip_gen rp d Hr Hd s (printable_attr_safe s Hs)). Qed.
 
-Theorem text_roundtrip_printable_gen : forall rp, rp = ref_xml_repl ->
+Theorem text_roundtrip_printable_gen : forall rp (body : list string) (rx : string) (fl : list string),
+  rp = ref_xml_repl -> body = ref_quote_xml_body -> rx = ref_cdata_regex /\ fl = ref_cdata_flags ->
   forall s, printable s = true -> no_cdata_section s = true -> text_parse (quote_xml_of rp s) = Some s.
-Proof. intros rp Hr s Hs Hc. exact (text_roundtrip_strong_gen rp Hr s (printable_text_safe s Hs) Hc). Qed.
+Proof.
+  intros rp body rx fl Hr Hb Hx s Hs Hc.
+  exact (text_roundtrip_strong_gen rp body rx fl Hr Hb Hx s (printable_text_safe s Hs) Hc).
+Qed.
+
+(* integers: the model functions are those of "%d" and int(); the hypotheses are the instance obligation *)
+Theorem int_roundtrip_gen : forall (fmt prs : string), fmt = ref_int_format /\ prs = ref_int_parse ->
+  forall z, parse_int (fmt_int z) = Some z.
+Proof. intros fmt prs _. exact int_roundtrip. Qed.
+
+(* ------------------------------------------------------------------ observation for C04 (load/write fixed point) *)
+(* a document may carry TAB / CR as character references; the reader delivers them, the writer emits them raw, and the
+   next read normalises them: load . write . load <> load on such values (seen on the real code:
+   <property tag="a&#9;b" .../> reloads as "a b" after one write) *)
+Example reload_attr_charref_tab_not_fixed :
+  attr_parse """a&#9;b""" = Some ("a" ++ str1 TAB ++ "b") /\
+  attr_parse (quote_attrib ("a" ++ str1 TAB ++ "b")) = Some "a b".
+Proof. split; reflexivity. Qed.
+
+Example reload_text_charref_cr_not_fixed :
+  text_parse "a&#13;b" = Some ("a" ++ str1 CR ++ "b") /\
+  text_parse (quote_xml ("a" ++ str1 CR ++ "b")) = Some ("a" ++ str1 LF ++ "b").
+Proof. split; reflexivity. Qed.
+
+(* what the reader returns for an attribute is stable from the second cycle on whenever it is attr_safe *)
+Corollary attr_write_read_idempotent : forall t v, attr_parse t = Some v -> attr_safe v = true ->
+  attr_parse (quote_attrib v) = Some v.
+Proof. intros t v _ Hv. exact (attr_roundtrip v Hv). Qed.
+
+(* distinct safe strings are written differently *)
+Corollary quote_attrib_injective : forall a b, attr_safe a = true -> attr_safe b = true ->
+  quote_attrib a = quote_attrib b -> a = b.
+Proof.
+  intros a b Ha Hb H. apply attr_roundtrip in Ha. apply attr_roundtrip in Hb.
+  rewrite H in Ha. rewrite Ha in Hb. now injection Hb.
+Qed.
+
+(* ------------------------------------------------------------------ the hypotheses are exact *)
+Lemma opt_cons_inj c x r : opt_cons c x = Some (String c r) -> x = Some r.
+Proof. destruct x as [y|]; simpl; [intros H; now injection H as -> | discriminate]. Qed.
+
+Lemma opt_cons_head c c' x r : opt_cons c x = Some (String c' r) -> c = c'.
+Proof. destruct x as [y|]; simpl; [intros H; now injection H | discriminate]. Qed.
+
+Ltac unsafe_char c H Heq :=
+  all_chars c; try discriminate H;
+  first [ discriminate Heq | apply opt_cons_head in Heq; discriminate Heq ].
+
+Lemma aunsafe_dq_q c rest r : attr_safe_char c = false ->
+  attr_body DQ (ANormal false) (esc_of attrib_repl_q c ++ rest) <> Some (String c r).
+Proof. intros H Heq. unsafe_char c H Heq. Qed.
+
+Lemma aunsafe_dq c rest r : attr_safe_char c = false ->
+  attr_body DQ (ANormal false) (esc_of ref_attrib_repl c ++ rest) <> Some (String c r).
+Proof. intros H Heq. unsafe_char c H Heq. Qed.
+
+Lemma aunsafe_sq c rest r : attr_safe_char c = false ->
+  attr_body SQ (ANormal false) (esc_of ref_attrib_repl c ++ rest) <> Some (String c r).
+Proof. intros H Heq. unsafe_char c H Heq. Qed.
+
+Lemma attr_body_cm_inv d e (p : ascii -> bool) :
+  (forall c, attr_safe_char c && p c = true -> astep d e c) ->
+  (forall c rest r, attr_safe_char c = false -> attr_body d (ANormal false) (e c ++ rest) <> Some (String c r)) ->
+  forall s, forall_chars p s = true ->
+  attr_body d (ANormal false) (cm e s ++ str1 d) = Some s -> attr_safe s = true.
+Proof.
+  intros Hstep Hbad; induction s as [|c t IH]; [reflexivity|].
+  cbn [forall_chars cm]. intros Hp Heq. apply andb_true_iff in Hp as [Hc Ht].
+  rewrite app_assoc_s in Heq. unfold attr_safe; cbn [forall_chars].
+  destruct (attr_safe_char c) eqn:Hs.
+  - rewrite (Hstep c) in Heq by (now rewrite Hs, Hc). apply opt_cons_inj in Heq. exact (IH Ht Heq).
+  - exfalso. exact (Hbad c _ t Hs Heq).
+Qed.
+
+Lemma forall_chars_not q s : contains_char q s = false -> forall_chars (fun c => negb (Ascii.eqb c q)) s = true.
+Proof.
+  induction s as [|c t IH]; simpl; [reflexivity|]. intros H; apply orb_false_iff in H as [Hc Ht].
+  now rewrite Hc, (IH Ht).
+Qed.
+
+Lemma forall_chars_true s : forall_chars (fun _ => true) s = true.
+Proof. induction s as [|c t IH]; simpl; [reflexivity | exact IH]. Qed.
+
+(* exactly the attr_safe strings survive as attribute values *)
+Theorem attr_roundtrip_only_if : forall s, attr_parse (quote_attrib s) = Some s -> attr_safe s = true.
+Proof.
+  intros s. unfold quote_attrib, quote_attrib_of.
+  rewrite (apply_repl_cm ref_attrib_repl s).
+  rewrite !(contains_char_cm _ (esc_of ref_attrib_repl) s) by (intro c; apply esc_attr_quotes; auto).
+  cbn [ad_test1 ad_test2 ad_both ad_first_only ad_none ref_attrib_decision].
+  destruct (contains_char DQ s) eqn:Hdq; [destruct (contains_char SQ s) eqn:Hsq|].
+  - unfold wrap; cbn [qr_delim qr_extra].
+    rewrite <- (apply_repl_cm ref_attrib_repl s), <- apply_repl_chain.
+    change (ref_attrib_repl ++ [(DQ, "&quot;")])%list with attrib_repl_q.
+    rewrite (apply_repl_cm attrib_repl_q s).
+    change (attr_body DQ (ANormal false) (cm (esc_of attrib_repl_q) s ++ str1 DQ) = Some s -> attr_safe s = true).
+    apply (attr_body_cm_inv DQ _ (fun _ => true)); [| exact aunsafe_dq_q | apply forall_chars_true].
+    intros c H. apply andb_true_iff in H as [H _]. exact (astep_dq_q c H).
+  - unfold wrap; cbn [qr_delim qr_extra apply_repl].
+    change (attr_body SQ (ANormal false) (cm (esc_of ref_attrib_repl) s ++ str1 SQ) = Some s -> attr_safe s = true).
+    exact (attr_body_cm_inv SQ _ _ astep_sq aunsafe_sq s (forall_chars_not SQ s Hsq)).
+  - unfold wrap; cbn [qr_delim qr_extra apply_repl].
+    change (attr_body DQ (ANormal false) (cm (esc_of ref_attrib_repl) s ++ str1 DQ) = Some s -> attr_safe s = true).
+    exact (attr_body_cm_inv DQ _ _ astep_dq aunsafe_dq s (forall_chars_not DQ s Hdq)).
+Qed.
+
+Theorem attr_roundtrip_iff : forall s, attr_parse (quote_attrib s) = Some s <-> attr_safe s = true.
+Proof. intros s; split; [apply attr_roundtrip_only_if | apply attr_roundtrip]. Qed.
+
+Lemma tunsafe c n rest r : text_safe_char c = false ->
+  text_body (TNormal false n) (esc_of ref_xml_repl c ++ rest) <> Some (String c r).
+Proof. intros H Heq. unsafe_char c H Heq. Qed.
+
+Lemma text_body_cm_inv : forall s n,
+  text_body (TNormal false n) (cm (esc_of ref_xml_repl) s) = Some s -> text_safe s = true.
+Proof.
+  induction s as [|c t IH]; intros n Heq; [reflexivity|].
+  cbn [cm] in Heq. unfold text_safe; cbn [forall_chars].
+  destruct (text_safe_char c) eqn:Hs.
+  - destruct (tstep_ok c Hs n (cm (esc_of ref_xml_repl) t)) as [n' Hn']. rewrite Hn' in Heq.
+    apply opt_cons_inj in Heq. exact (IH n' Heq).
+  - exfalso. exact (tunsafe c n _ t Hs Heq).
+Qed.
+
+(* for strings without a complete CDATA section, exactly the text_safe ones survive as element text *)
+Theorem text_roundtrip_iff : forall s, no_cdata_section s = true ->
+  (text_parse (quote_xml s) = Some s <-> text_safe s = true).
+Proof.
+  intros s Hc; split; [|intros Hs; exact (text_roundtrip_strong s Hs Hc)].
+  unfold quote_xml, quote_xml_of, text_parse.
+  rewrite (quote_xml_loop_plain _ s "" Hc). cbn [append]. unfold quote_xml_aux_of.
+  rewrite apply_repl_cm. apply text_body_cm_inv.
+Qed.
+
+Theorem attr_roundtrip_iff_gen : forall rp d, rp = ref_attrib_repl -> d = ref_attrib_decision ->
+  forall s, attr_parse (quote_attrib_of rp d s) = Some s <-> attr_safe s = true.
+Proof. intros rp d -> ->. exact attr_roundtrip_iff. Qed.
+
+Theorem text_roundtrip_iff_gen : forall rp (body : list string) (rx : string) (fl : list string),
+  rp = ref_xml_repl -> body = ref_quote_xml_body -> rx = ref_cdata_regex /\ fl = ref_cdata_flags ->
+  forall s, no_cdata_section s = true -> (text_parse (quote_xml_of rp s) = Some s <-> text_safe s = true).
+Proof. intros rp body rx fl -> _ _. exact text_roundtrip_iff. Qed.
